@@ -874,7 +874,9 @@ def finish(ctx):
             rep = {"property": ctx.pid, "clauses": mine[tid], "case": ctx.cases[tid], "event": ev,
                    "tier": ctx.tier, "seed": ctx.seed}
             p = os.path.join(d, core.sha([ctx.cases[tid], mine[tid]]) + ".json")
-            json.dump(rep, open(p, "w"), indent=1, default=str)
+            if p in viol_files: continue
+            if not getattr(ctx, "replaying", False):
+                json.dump(rep, open(p, "w"), indent=1, default=str)
             viol_files.append(p)
     for k, v in sorted(getattr(ctx, "known_printed", {}).items()):
         print("KNOWN-FINDING: property=%s %s" % (ctx.pid, v))
@@ -890,7 +892,8 @@ def finish(ctx):
     if other:
         cl = sorted({c for v in other.values() for c in v})
         print("NOTE %d events failed clauses of other properties (%s); not an alarm for %s" % (len(other), ",".join(cl), ctx.pid))
-    write_evidence(ctx, mine, outside)
+    if not getattr(ctx, "replaying", False):
+        write_evidence(ctx, mine, outside)      # a replay of one case is not evidence
     print("%s %s: p1_states=%d events=%d accepted=%d violations=%d outside_domain=%d wall=%.1fs (p1 %.0fs, p2 %.0fs, p3 %.0fs)" % (
         ctx.pid, ctx.tier, sum(x["distinct"] for x in ctx.p1), len(ctx.events),
         len(ctx.events) - len(ctx.rejects) - outside, len(mine), outside, time.time() - ctx.t0,
